@@ -38,7 +38,7 @@ def build(P):
     n0_ = len(P.tasks)
     mo_ = P.min_obligations
     C03.build(P)
-    P.tasks[n0_:] = [t for t in P.tasks[n0_:] if t.name.startswith(("PassFailResult.evaluate", "get_positive_objects", "get_negative_objects"))]
+    P.tasks[n0_:] = [t for t in P.tasks[n0_:] if t.name.startswith(("PassFailResult.evaluate", "get_positive_objects", "get_negative_objects", "get_status["))]
     P.min_obligations = mo_
     # ---------------------------------------------------------------- which results AP counts as TP: exactly the correct ones at the label's threshold, whatever number type it has
     import contracts.C04 as C04
